@@ -488,5 +488,8 @@ func idleProblem(vm *goja.Runtime, wantFlag bool, jobsAllowed ...bool) string {
 	if s.AsyncRunner {
 		bad = append(bad, "asyncRunner!=nil")
 	}
+	if s.NativeDepth != 0 {
+		bad = append(bad, fmt.Sprintf("nativeDepth=%d", s.NativeDepth))
+	}
 	return strings.Join(bad, ",")
 }
